@@ -126,7 +126,7 @@ _KW_BUILTINS: Dict[str, Any] = {
 
 
 # pure builtins the constant folder of sa/consteval.py does not list
-_MORE_BUILTINS: Dict[str, Any] = {"format": format, "divmod": divmod, "ord": ord, "chr": chr, "pow": pow, "hasattr": hasattr, "getattr": getattr, "callable": callable, "ascii": ascii, "hash": hash}
+_MORE_BUILTINS: Dict[str, Any] = {"format": format, "divmod": divmod, "ord": ord, "chr": chr, "pow": pow, "hasattr": hasattr, "getattr": getattr, "callable": callable, "ascii": ascii, "hash": hash, "type": type}
 
 
 class Folder2(Folder):
@@ -201,7 +201,7 @@ class Folder2(Folder):
                     kw = self._kw(n)
                     if set(kw) <= {"key", "reverse"} and (kw.get("key") is None or callable(kw["key"])):
                         return recv.sort(**kw)  # in place, like the language
-                if isinstance(recv, str) and f.attr in ("zfill", "center", "title", "capitalize", "isupper", "islower", "isalnum", "isnumeric", "isdecimal", "find", "count", "partition", "rpartition", "splitlines", "rsplit") and not n.keywords:
+                if isinstance(recv, str) and f.attr in ("zfill", "center", "title", "capitalize", "isupper", "islower", "isascii", "isalnum", "isnumeric", "isdecimal", "find", "count", "partition", "rpartition", "splitlines", "rsplit") and not n.keywords:
                     return getattr(recv, f.attr)(*self._elts(n.args))
         return super()._f_Call(n)
 
@@ -498,6 +498,13 @@ class BlockEval2(BlockEval):
             else:
                 for v in self.fold(st.value.value):
                     self.yield_fn(v)
+            return
+        if isinstance(st, ast.Expr) and isinstance(st.value, ast.Call) and ast.unparse(st.value.func).split(".")[0] in ("logging", "logger", "log", "warnings", "print"):
+            # the message goes nowhere, but its arguments are evaluated before the call whatever the log level is: an argument that
+            # calls something (a helper that reads a line from the handle, pops from a list) has its effect on the state
+            for a in list(st.value.args) + [k.value for k in st.value.keywords]:
+                if any(isinstance(x, ast.Call) for x in ast.walk(a)):
+                    self.fold(a)
             return
         if isinstance(st, ast.Expr) and isinstance(st.value, ast.Call):
             c = st.value
